@@ -5,6 +5,7 @@ package main
 import (
 	"fmt"
 	"time"
+	"unicode/utf8"
 
 	"verif/harness/hx"
 	"verif/harness/parsehx"
@@ -16,6 +17,21 @@ type caseJSON struct {
 	Items     []parsehx.Item `json:"items"`
 	Class     string         `json:"class,omitempty"`
 	Generator string         `json:"generator"`
+}
+
+// plainText: valid UTF-8 without ESC, CAN, SUB, DEL or C1 code points.  Only such streams are judged
+// for segmentation: a raw invalid byte comes back as a code point of its own, and a cancelled
+// sequence separates two Prints without delivering anything.
+func plainText(b []byte) bool {
+	if !utf8.Valid(b) {
+		return false
+	}
+	for _, r := range string(b) {
+		if r == 0x1b || r == 0x18 || r == 0x1a || (r >= 0x7f && r <= 0x9f) {
+			return false
+		}
+	}
+	return true
 }
 
 func main() {
@@ -55,6 +71,10 @@ func main() {
 			if res.ClusterProblem != "" && len(ch) == 1 {
 				clusterProblems++
 				direct = append(direct, hx.DirectViolation{Class: "print-cluster", Case: js, What: res.ClusterProblem})
+			}
+			if res.SegProblem != "" && len(ch) == 1 && len(stream) < 2048 && plainText(stream) {
+				clusterProblems++
+				direct = append(direct, hx.DirectViolation{Class: "print-segmentation", Case: js, What: res.SegProblem})
 			}
 			if seen[term] {
 				continue
@@ -124,6 +144,34 @@ func main() {
 		}
 		try(b, gen, true)
 	}
+	// 2b. text: runs over one or two members of every grapheme-break class (Prepend, Extend, ZWJ,
+	// SpacingMark, Hangul L/V/T/LV/LVT, Regional_Indicator, Extended_Pictographic, emoji modifiers and
+	// variation selectors, CR/LF/Control) mixed with ASCII, sometimes between control sequences
+	classes := []string{"a", "Z", " ", "~", "1", "\u0600", "\u06dd", "\U000110bd", "\u0301", "\u20dd", "\u200d", "\u0903", "\u0e33",
+		"\u1100", "\u1161", "\u11a8", "\uac00", "\uac01", "\U0001f1e9", "\U0001f1ea", "\U0001f600", "\U0001f44d", "\U0001f3fd",
+		"\ufe0f", "\ufe0e", "\u2764", "\u00e9", "\u6f22", "\u200b", "\u00ad", "\r", "\n", "\t"}
+	nt := 1200
+	if cfg.Thorough() {
+		nt = 30000
+	}
+	// every ordered pair, then random runs
+	for _, a := range classes {
+		for _, b := range classes {
+			try([]byte(a+b), "text-pair", true)
+		}
+	}
+	for i := 0; i < nt; i++ {
+		var b []byte
+		for k := 2 + cfg.Rand.Intn(6); k > 0; k-- {
+			if cfg.Rand.Intn(9) == 0 {
+				e, _ := parsehx.Element(cfg.Rand)
+				b = append(b, e...)
+			} else {
+				b = append(b, classes[cfg.Rand.Intn(len(classes))]...)
+			}
+		}
+		try(b, "text", true)
+	}
 	// 3. raw random bytes
 	m := 500
 	if cfg.Thorough() {
@@ -143,7 +191,7 @@ func main() {
 		}
 		try(b, "random", true)
 	}
-	cfg.Write("C02", "byte streams: all strings up to length 3 (quick) / 4 (thorough) over one representative per byte class of the state machine; directed state x rune cases (a prefix reaching each of the 16 states, every 7-bit byte and some multi-byte runes, two suffixes); grammar-generated concatenations of CSI/OSC/DCS/APC/SS3/ESC/SOS-PM sequences with random parameters (empty, 0, huge, overflowing), intermediates, payloads, embedded C0, CAN/SUB/ESC cancels, empty-bodied strings; raw random bytes. Each stream is parsed under 3 read chunkings (all at once, byte by byte, random); one case per distinct canonical observation. non-trivial = longer than one symbol",
+	cfg.Write("C02", "byte streams: all strings up to length 3 (quick) / 4 (thorough) over one representative per byte class of the state machine; directed state x rune cases (a prefix reaching each of the 16 states, every 7-bit byte and some multi-byte runes, two suffixes); grammar-generated concatenations of CSI/OSC/DCS/APC/SS3/ESC/SOS-PM sequences with random parameters (empty, 0, huge, overflowing), intermediates, payloads, embedded C0, CAN/SUB/ESC cancels, empty-bodied strings; text runs over members of every grapheme-break class (all ordered pairs, random runs, mixed with control sequences): when delivered by one read, consecutive Prints must be exactly uniseg's segmentation of the run; raw random bytes. Each stream is parsed under 3 read chunkings (all at once, byte by byte, random); one case per distinct canonical observation. non-trivial = longer than one symbol",
 		[]*hx.Stream{s}, map[string]interface{}{"parser_runs": runs, "chunking_disagreements": chunkDisagreements,
 			"print_cluster_problems": clusterProblems}, direct)
 }
